@@ -17,7 +17,7 @@ YOUR TASK: write a realistic change to the library's source (under src/ or may_q
   (a) the workspace still compiles,
   (b) the existing test suite still passes: run `cargo nextest run --workspace --no-fail-fast --test-threads 8 --offline` in {wdir} (the unchanged tree passes 249 tests; run it at least twice with your change, tests must not become flaky),
   (c) the breakage needs something specific to manifest - a particular interleaving, a cancel/panic/timeout at a particular point, a multi-step sequence of operations, an unusual input, or two cooperating sites that each look fine alone - NOT something that ordinary use or the existing tests would expose at once. Think of the kind of subtle regression a well-meaning refactoring, "optimisation" or "simplification" could introduce (a dropped re-check, a reordered store/load, an off-by-one in a counter test, a forgotten hand-off on an error path, a wrong branch on a rarely taken path, ...).
-Also write a DEMONSTRATION: a test file or small program (for example {wdir}/tests/demo_{pid.lower()}_1.rs) that FAILS (assertion failure, hang detected by a timeout, wrong result) with your change and PASSES without it. The demonstration may use many iterations, many threads/coroutines, sleeps and timeouts to hit the window with high probability, but must not modify the library. Verify both directions yourself (with the change: fails; `git stash`/revert the library change: passes).
+Also write a DEMONSTRATION: a test file or small program (for example {wdir}/tests/demo_{pid.lower()}_1.rs) that FAILS (assertion failure, hang detected by a timeout, wrong result) with your change and PASSES without it. The demonstration may use many iterations, many threads/coroutines, sleeps and timeouts to hit the window with high probability, but must not modify the library. Verify both directions yourself (with the change: fails; library change reverted: passes). NEVER use `git stash` (the stash is shared with sibling worktrees used by other people): save your change with `git diff > file` and revert with `git checkout -- src may_queue`.
 
 Lines guarded by `#[cfg(may_verif)]` in the sources are inert instrumentation (not compiled in normal builds): leave them in place; if you move or delete a statement, keep the guarded line that precedes it attached to it (move it along / leave it where it is), and do not rely on them.
 
